@@ -1,10 +1,21 @@
 """Fail-closed `ast` reader of the iteration caps and loop shapes of the narrow-phase entry points
 of /repo  ->  coq/theories/Gen/NarrowCaps.v  (regenerated on every run of C19).
 
-What is read: the default arguments that cap a loop, the comparison operator of every cap test,
-the number of support evaluations per loop pass, and which loops have no cap at all.  Any
-unexpected shape raises CapsError: the dependent theorem (Props/C19.v capped_loops_bounded) is
-then reported broken instead of being checked against stale numbers.
+What is read and PINNED (any deviation raises CapsError, the dependent theorem Props/C19.v
+capped_loops_bounded is then reported broken instead of being checked against stale numbers):
+* the default arguments that cap a loop, and the comparison operator of every cap test;
+* the number of collider support EVALUATIONS one pass of each loop makes, counted by walking the loop body
+  AND the bodies of the module-level functions it calls (both syntactic forms: `x.support_function(d)` = 1
+  evaluation, `support_function(c1, c2, d)` of distance3d.minkowski = the 2 evaluations its body contains);
+  the statements before / after the loop are counted the same way;
+* the position of every counter increment: exactly one `k += 1` in the whole loop, a direct statement of the
+  loop body (not under an `if`), at the pinned place (last statement, resp. directly before the cap test), and no
+  other assignment to the counter inside the loop;
+* for the Nesterov loops: every `continue` is guarded by `if use_nesterov_acceleration:` and preceded by
+  `use_nesterov_acceleration = False`, and the flag is never switched on inside the loop;
+* which loops have no cap at all.
+Limits (stated in C19's level text): calls through objects other than `<expr>.support_function`, dynamically
+bound names, and support evaluations hidden behind callables passed as data are not seen.
 """
 import ast
 from pathlib import Path
@@ -19,6 +30,10 @@ def _fn(tree, name, path):
         if isinstance(node, ast.FunctionDef) and node.name == name:
             return node
     raise CapsError(f"{path}: function {name} not found")
+
+
+def _funcs(tree):
+    return {n.name: n for n in ast.walk(tree) if isinstance(n, ast.FunctionDef)}
 
 
 def _default(fn, arg, path):
@@ -41,17 +56,6 @@ def _default(fn, arg, path):
 
 def _loops(fn):
     return [n for n in ast.walk(fn) if isinstance(n, (ast.While, ast.For))]
-
-
-def _calls(node, name=None, attr=None):
-    n = 0
-    for c in ast.walk(node):
-        if isinstance(c, ast.Call):
-            if name is not None and isinstance(c.func, ast.Name) and c.func.id == name:
-                n += 1
-            if attr is not None and isinstance(c.func, ast.Attribute) and c.func.attr == attr:
-                n += 1
-    return n
 
 
 def _is_while_true(loop):
@@ -80,9 +84,100 @@ def _one(lst, what):
     return lst[0]
 
 
-def _increments(loop, var):
-    return sum(1 for n in ast.walk(loop) if isinstance(n, ast.AugAssign) and isinstance(n.target, ast.Name)
-               and n.target.id == var and isinstance(n.op, ast.Add) and isinstance(n.value, ast.Constant) and n.value.value == 1)
+class Evals:
+    """support evaluations made by executing a piece of code once (syntactic count through callees)"""
+
+    def __init__(self, repo, path, tree):
+        self.path = path
+        self.funcs = _funcs(tree)
+        self.imported_pair = None
+        # `from .minkowski import ... support_function ...` / `from distance3d.minkowski import ...`
+        for node in tree.body:
+            if isinstance(node, ast.ImportFrom) and node.module and node.module.endswith("minkowski"):
+                if any(a.name == "support_function" for a in node.names):
+                    mp = Path(repo) / "distance3d" / "minkowski.py"
+                    mt = ast.parse(mp.read_text())
+                    f = _fn(mt, "support_function", mp)
+                    if _loops(f):
+                        raise CapsError(f"{mp}:support_function: unexpected loop")
+                    n = sum(1 for c in ast.walk(f) if isinstance(c, ast.Call) and isinstance(c.func, ast.Attribute)
+                            and c.func.attr == "support_function")
+                    other = sum(1 for c in ast.walk(f) if isinstance(c, ast.Call) and isinstance(c.func, ast.Name)
+                                and c.func.id == "support_function")
+                    if n != 2 or other:
+                        raise CapsError(f"{mp}:support_function: expected exactly two collider.support_function calls, found {n}")
+                    self.imported_pair = n
+
+    def entry_ok(self, fn, allowed):
+        """an entry point / wrapper makes no support evaluation of its own: only through the functions in `allowed`"""
+        for c in ast.walk(fn):
+            if not isinstance(c, ast.Call):
+                continue
+            if isinstance(c.func, ast.Attribute) and c.func.attr == "support_function":
+                raise CapsError(f"{self.path}:{fn.name}: direct support evaluation")
+            if isinstance(c.func, ast.Name) and c.func.id not in allowed:
+                nm = c.func.id
+                if nm == "support_function" and nm not in self.funcs:
+                    raise CapsError(f"{self.path}:{fn.name}: direct support evaluation")
+                if nm in self.funcs and self.count(self.funcs[nm].body, (fn.name,), loops_ok=True):
+                    raise CapsError(f"{self.path}:{fn.name}: support evaluations through {nm}")
+        if _loops(fn):
+            raise CapsError(f"{self.path}:{fn.name}: unexpected loop")
+
+    def count(self, node, stack=(), loops_ok=False):
+        """node: an AST node or a list of statements"""
+        nodes = node if isinstance(node, list) else [node]
+        total = 0
+        for nd in nodes:
+            for c in ast.walk(nd):
+                if not isinstance(c, ast.Call):
+                    continue
+                if isinstance(c.func, ast.Attribute) and c.func.attr == "support_function":
+                    total += 1
+                elif isinstance(c.func, ast.Name):
+                    nm = c.func.id
+                    if nm in self.funcs:
+                        if nm in stack:
+                            raise CapsError(f"{self.path}: recursion through {nm}")
+                        if len(stack) > 6:
+                            raise CapsError(f"{self.path}: call chain too deep at {nm}")
+                        f = self.funcs[nm]
+                        sub = self.count(f.body, stack + (nm,), loops_ok)
+                        if _loops(f) and sub and not loops_ok:
+                            raise CapsError(f"{self.path}:{nm}: a callee with a loop makes support evaluations")
+                        total += sub
+                    elif nm == "support_function":
+                        if self.imported_pair is None:
+                            raise CapsError(f"{self.path}: support_function is neither defined here nor imported from minkowski")
+                        total += self.imported_pair
+        return total
+
+
+def _pin_counter(loop, var, where, path, fname, before_test_of=None):
+    """exactly one `var += 1` in the loop, a direct statement of the loop body at the pinned place; no other
+    assignment to `var` inside the loop"""
+    incs = [n for n in ast.walk(loop) if isinstance(n, ast.AugAssign) and isinstance(n.target, ast.Name) and n.target.id == var]
+    others = [n for n in ast.walk(loop) if isinstance(n, (ast.Assign, ast.AnnAssign)) and
+              any(isinstance(t, ast.Name) and t.id == var for t in (n.targets if isinstance(n, ast.Assign) else [n.target]))]
+    if others:
+        raise CapsError(f"{path}:{fname}: `{var}` is assigned inside the loop")
+    inc = _one(incs, f"`{var} += 1` in the loop of {path}:{fname}")
+    if not (isinstance(inc.op, ast.Add) and isinstance(inc.value, ast.Constant) and inc.value.value == 1):
+        raise CapsError(f"{path}:{fname}: `{var}` is not incremented by 1")
+    if inc not in loop.body:
+        raise CapsError(f"{path}:{fname}: `{var} += 1` is not a direct statement of the loop body")
+    k = loop.body.index(inc)
+    if where == "last" and k != len(loop.body) - 1:
+        raise CapsError(f"{path}:{fname}: `{var} += 1` is not the last statement of the loop body")
+    if where == "before_cap_test":
+        nxt = loop.body[k + 1] if k + 1 < len(loop.body) else None
+        if not (isinstance(nxt, ast.If) and _compares_with(nxt.test, before_test_of)):
+            raise CapsError(f"{path}:{fname}: `{var} += 1` is not directly followed by the cap test")
+        if not any(isinstance(x, ast.Break) for x in nxt.body):
+            raise CapsError(f"{path}:{fname}: the cap test does not break")
+        if k + 1 != len(loop.body) - 1:
+            raise CapsError(f"{path}:{fname}: statements after the cap test")
+    return k
 
 
 def read(repo):
@@ -91,75 +186,88 @@ def read(repo):
     # ---------------------------------------------------------------- libccd
     p = repo / "distance3d" / "gjk" / "_gjk_libccd.py"
     t = ast.parse(p.read_text())
+    ev = Evals(repo, p, t)
     d["libccd_max_iterations"] = _default(_fn(t, "gjk_intersection_libccd", p), "max_iterations", p)
     g = _fn(t, "_gjk", p)
     loop = _one(_loops(g), f"loop in {p}:_gjk")
     if not _is_for_range(loop, "max_iterations"):
         raise CapsError(f"{p}:_gjk: loop is not `for _ in range(max_iterations)`")
-    d["libccd_pairs_per_pass"] = _calls(loop, name="support_function")
-    if d["libccd_pairs_per_pass"] != 1 or _calls(g, name="support_function") != 1:
-        raise CapsError(f"{p}:_gjk: expected exactly one support_function call, inside the loop")
+    per = ev.count(loop.body)
+    if per != 2 or ev.count(g.body) != per:
+        raise CapsError(f"{p}:_gjk: expected 2 support evaluations per pass and none outside the loop, found {per} / {ev.count(g.body)}")
+    d["libccd_pairs_per_pass"] = per // 2
+    ev.entry_ok(_fn(t, "gjk_intersection_libccd", p), {"_gjk"})
     # ---------------------------------------------------------------- MPR
     p = repo / "distance3d" / "mpr.py"
     t = ast.parse(p.read_text())
+    ev = Evals(repo, p, t)
     d["mpr_max_iterations"] = _default(_fn(t, "mpr_intersection", p), "max_iterations", p)
     d["mpr_pen_max_iterations"] = _default(_fn(t, "mpr_penetration", p), "max_iterations", p)
     disc = _fn(t, "_discover_portal", p)
-    pre = 0
-    for helper in ("_find_origin_ray", "_find_support_in_direction_of_origin_ray",
-                   "_find_support_perpendicular_to_plane_containing_origin_v01"):
-        if _calls(disc, name=helper) != 1:
-            raise CapsError(f"{p}:_discover_portal: expected one call of {helper}")
-        h = _fn(t, helper, p)
-        if _loops(h):
-            raise CapsError(f"{p}:{helper}: unexpected loop")
-        pre += _calls(h, name="support_function")
-    d["mpr_discover_pre_pairs"] = pre
     loop = _one(_loops(disc), f"loop in {p}:_discover_portal")
+    if loop not in disc.body:
+        raise CapsError(f"{p}:_discover_portal: the loop is nested")
+    k = disc.body.index(loop)
+    pre = ev.count(disc.body[:k])
+    post = ev.count(disc.body[k + 1:])
+    per = ev.count(loop.body)
+    if pre % 2 or per != 2 or post:
+        raise CapsError(f"{p}:_discover_portal: support evaluations before / per pass / after the loop = {pre} / {per} / {post}")
+    d["mpr_discover_pre_pairs"] = pre // 2
     if not (isinstance(loop, ast.While) and isinstance(loop.test, ast.Compare)):
         raise CapsError(f"{p}:_discover_portal: loop is not `while portal.n_points < 4`")
-    if _calls(loop, name="support_function") != 1 or _increments(loop, "it") != 1:
-        raise CapsError(f"{p}:_discover_portal: expected one support_function call and one `it += 1` per pass")
+    _pin_counter(loop, "it", "before_cap_test", p, "_discover_portal", before_test_of="max_iterations")
     cmp_ = _one(_compares_with(loop, "max_iterations"), f"cap test in {p}:_discover_portal")
     if cmp_[0] != "it" or cmp_[1] not in ("GtE", "Gt"):
         raise CapsError(f"{p}:_discover_portal: cap test is {cmp_}")
     d["mpr_discover_cap_is_ge"] = cmp_[1] == "GtE"
-    # the cap test must be followed by a break
-    capif = [n for n in ast.walk(loop) if isinstance(n, ast.If) and _compares_with(n.test, "max_iterations")]
-    if len(capif) != 1 or not any(isinstance(x, ast.Break) for x in ast.walk(capif[0])):
-        raise CapsError(f"{p}:_discover_portal: cap test does not break")
+    # `it = 0` directly before the loop
+    prev = disc.body[k - 1]
+    if not (isinstance(prev, ast.Assign) and isinstance(prev.targets[0], ast.Name) and prev.targets[0].id == "it"
+            and isinstance(prev.value, ast.Constant) and prev.value.value == 0):
+        raise CapsError(f"{p}:_discover_portal: `it = 0` does not directly precede the loop")
     ref = _fn(t, "_refine_portal", p)
     loop = _one(_loops(ref), f"loop in {p}:_refine_portal")
-    if not _is_while_true(loop) or _calls(loop, name="support_function") != 1:
-        raise CapsError(f"{p}:_refine_portal: expected `while True` with one support_function call")
+    if not _is_while_true(loop) or ev.count(loop.body) != 2 or ev.count(ref.body) != 2:
+        raise CapsError(f"{p}:_refine_portal: expected `while True` with 2 support evaluations per pass")
     d["mpr_refine_capped"] = bool(_compares_with(ref, "max_iterations"))
     pen = _fn(t, "_find_penetration_info", p)
     loop = _one(_loops(pen), f"loop in {p}:_find_penetration_info")
-    if not _is_while_true(loop) or _calls(loop, name="support_function") != 1 or _increments(loop, "iterations") != 1:
-        raise CapsError(f"{p}:_find_penetration_info: expected `while True`, one support_function call, one `iterations += 1`")
+    if not _is_while_true(loop) or ev.count(loop.body) != 2 or ev.count(pen.body) != 2:
+        raise CapsError(f"{p}:_find_penetration_info: expected `while True` with 2 support evaluations per pass")
+    _pin_counter(loop, "iterations", "last", p, "_find_penetration_info")
     cmp_ = _one(_compares_with(loop, "max_iterations"), f"cap test in {p}:_find_penetration_info")
     if cmp_[0] != "iterations" or cmp_[1] not in ("GtE", "Gt"):
         raise CapsError(f"{p}:_find_penetration_info: cap test is {cmp_}")
     d["mpr_pen_cap_is_ge"] = cmp_[1] == "GtE"
+    # the entry points make no support evaluation of their own (only through the three functions above)
+    ev.entry_ok(_fn(t, "mpr_intersection", p), {"_discover_portal", "_refine_portal"})
+    ev.entry_ok(_fn(t, "mpr_penetration", p), {"_discover_portal", "_refine_portal", "_find_penetration_info"})
     # ---------------------------------------------------------------- EPA
     p = repo / "distance3d" / "epa.py"
     t = ast.parse(p.read_text())
+    ev = Evals(repo, p, t)
     e = _fn(t, "epa", p)
     for a in ("max_iter", "max_loose_edges", "max_faces"):
         d["epa_" + a] = _default(e, a, p)
-    loops = [lp for lp in _loops(e)]
-    loop = _one(loops, f"loop in {p}:epa")
+    loop = _one(_loops(e), f"loop in {p}:epa")
     if not _is_for_range(loop, "max_iter"):
         raise CapsError(f"{p}:epa: loop is not `for iteration in range(max_iter)`")
-    n = _calls(loop, attr="support_function")
-    if n != 2 or _calls(e, attr="support_function") != 2:
-        raise CapsError(f"{p}:epa: expected two collider.support_function calls, inside the loop")
-    d["epa_evals_per_pass"] = n
+    per = ev.count(loop.body)
+    # methods of Polytope / LooseEdges are called through objects: make sure none of them evaluates supports
+    for cls in [n for n in t.body if isinstance(n, ast.ClassDef)]:
+        if ev.count(cls.body):
+            raise CapsError(f"{p}:{cls.name}: a method makes support evaluations")
+    if per != 2 or ev.count(e.body) != per:
+        raise CapsError(f"{p}:epa: expected 2 support evaluations per pass and none outside the loop, found {per}")
+    d["epa_evals_per_pass"] = per
     # ---------------------------------------------------------------- Nesterov (generic and primitives)
-    for key, fname, func in (("nesterov", "_gjk_nesterov_accelerated.py", "gjk_nesterov_accelerated"),
-                             ("nesterov_prim", "_gjk_nesterov_accelerated_primitives.py", "run_gjk_nesterov_accelerated")):
+    for key, fname, func, expect_evals in (
+            ("nesterov", "_gjk_nesterov_accelerated.py", "gjk_nesterov_accelerated", 2),
+            ("nesterov_prim", "_gjk_nesterov_accelerated_primitives.py", "run_gjk_nesterov_accelerated", 0)):
         p = repo / "distance3d" / "gjk" / fname
         t = ast.parse(p.read_text())
+        ev = Evals(repo, p, t)
         entry = _fn(t, "gjk_nesterov_accelerated" if key == "nesterov" else "gjk_nesterov_accelerated_primitives", p)
         d[key + "_max_interations"] = _default(entry, "max_interations", p)
         f = _fn(t, func, p)
@@ -168,9 +276,16 @@ def read(repo):
                 and isinstance(loop.test.ops[0], ast.Lt) and isinstance(loop.test.left, ast.Name) and loop.test.left.id == "i"
                 and isinstance(loop.test.comparators[0], ast.Name) and loop.test.comparators[0].id == "max_interations"):
             raise CapsError(f"{p}:{func}: loop is not `while i < max_interations`")
-        if _calls(loop, name="support_function") != 1 or _increments(loop, "i") != 1:
-            raise CapsError(f"{p}:{func}: expected one support_function call and one `i += 1` per pass")
-        # every `continue` must directly follow `use_nesterov_acceleration = False` inside `if use_nesterov_acceleration:`
+        # one call of the module's support_function per pass; its body makes `expect_evals` collider evaluations
+        ncalls = sum(1 for c in ast.walk(loop) if isinstance(c, ast.Call) and isinstance(c.func, ast.Name) and c.func.id == "support_function")
+        if ncalls != 1 or "support_function" not in ev.funcs:
+            raise CapsError(f"{p}:{func}: expected exactly one call of this module's support_function per pass")
+        per = ev.count(loop.body)
+        if per != expect_evals or ev.count(f.body) != per:
+            raise CapsError(f"{p}:{func}: {per} collider support evaluations per pass (expected {expect_evals}), or evaluations outside the loop")
+        if entry is not f:
+            ev.entry_ok(entry, {func})
+        _pin_counter(loop, "i", "last", p, func)
         conts = 0
         for node in ast.walk(loop):
             if isinstance(node, ast.If):
@@ -184,13 +299,14 @@ def read(repo):
                                      for prev in body[:j])
                             if not ok:
                                 raise CapsError(f"{p}:{func}: a `continue` that does not switch the acceleration off")
+        if any(isinstance(st, ast.Continue) for st in loop.body):
+            raise CapsError(f"{p}:{func}: an unconditional `continue`")
         guards = 0
         for node in ast.walk(loop):
             if isinstance(node, ast.If) and isinstance(node.test, ast.Name) and node.test.id == "use_nesterov_acceleration":
                 guards += sum(1 for x in ast.walk(node) if isinstance(x, ast.Continue))
         if guards < conts:
             raise CapsError(f"{p}:{func}: a `continue` outside `if use_nesterov_acceleration:`")
-        # the flag is never switched back on inside the loop
         for node in ast.walk(loop):
             if isinstance(node, ast.Assign) and isinstance(node.targets[0], ast.Name) \
                     and node.targets[0].id == "use_nesterov_acceleration" \
@@ -200,10 +316,11 @@ def read(repo):
     # ---------------------------------------------------------------- uncapped loops
     p = repo / "distance3d" / "gjk" / "_gjk_jolt.py"
     t = ast.parse(p.read_text())
+    ev = Evals(repo, p, t)
     for fn in ("gjk_intersection_jolt", "gjk_distance_jolt", "gjk_distance_jolt_iterations"):
         loop = _one(_loops(_fn(t, fn, p)), f"loop in {p}:{fn}")
-        if not _is_while_true(loop) or _calls(loop, attr="support_function") != 2:
-            raise CapsError(f"{p}:{fn}: expected `while True` with two support_function calls")
+        if not _is_while_true(loop) or ev.count(loop.body) != 2:
+            raise CapsError(f"{p}:{fn}: expected `while True` with two support evaluations per pass")
     p = repo / "distance3d" / "gjk" / "_gjk_original.py"
     t = ast.parse(p.read_text())
     loop = _one(_loops(_fn(t, "gjk_distance_original", p)), f"loop in {p}:gjk_distance_original")
